@@ -117,17 +117,26 @@ func buildStoreConfig(c *sim.RunCtx, s *rt.Sched, cfg *storeCfg, m *media, proc 
 		panic(sim.HarnessError{Msg: "W-config: unexpected key format"})
 	}
 	e.ba = info.BlobAccess
+	if cfg.Disk {
+		// the allocator's collectors: blocks re-attached at start-up are
+		// counted as allocations by the code, so the value right after
+		// construction is the base
+		e.allocCounter = existingCounter("block_device_backed_block_allocator_allocations_total", "Number of times blocks managed by BlockDeviceBackedBlockAllocator were allocated", "storage_type", "cas")
+		e.releaseCounter = existingCounter("block_device_backed_block_allocator_releases_total", "Number of times blocks managed by BlockDeviceBackedBlockAllocator were released", "storage_type", "cas")
+		if e.allocCounter == nil || e.releaseCounter == nil {
+			panic(sim.HarnessError{Msg: "W-config: allocator collectors not found"})
+		}
+		e.allocBase, e.releaseBase = counterValue(e.allocCounter), counterValue(e.releaseCounter)
+	}
 	return e
 }
 
-// allocations reported by the block device backed allocator's collector since
-// the store was built (W-config). It counts re-attached blocks as well.
+// collectorAllocations: blocks allocated with NewBlock since the store was
+// built, read from the allocator's Prometheus collector (W-config, disk).
 func (e *storeEnv) collectorAllocations() int {
-	k := "buildbarn_blobstore_block_device_backed_block_allocator_allocations_total,storage_type=cas"
-	return int(gatherMetrics()[k] - e.metricsBase[k])
+	return int(counterValue(e.allocCounter) - e.allocBase)
 }
 
 func (e *storeEnv) collectorReleases() int {
-	k := "buildbarn_blobstore_block_device_backed_block_allocator_releases_total,storage_type=cas"
-	return int(gatherMetrics()[k] - e.metricsBase[k])
+	return int(counterValue(e.releaseCounter) - e.releaseBase)
 }
